@@ -32,3 +32,30 @@ Definition fb_cbor_load_uint64 (src : Z -> Z) := Z.of_N (be_val (map (fun i => Z
 Definition fbclaim_bytes (required provided r_read r_status r_required : Z) :=
   let (ok, r') := claim_bytes (Z.to_N required) (Z.to_N provided) (mkdres (status_of r_status) (Z.to_N r_read) (Z.to_N r_required)) in
   (b2z ok, Z.of_N (rd r'), zstatus (st r'), Z.of_N (req r')).
+
+(* fallbacks for _cbor_encode_uint and the public encoders *)
+Definition fb_cbor_encode_uint (v s o : Z) := zres (enc_uint (Z.to_N v) (Z.to_N s) (Z.to_N o)).
+Definition fbcbor_encode_uint8 (v s : Z) := zres (enc_uint8 (Z.to_N v) (Z.to_N s) 0).
+Definition fbcbor_encode_uint16 (v s : Z) := zres (enc_uint16 (Z.to_N v) (Z.to_N s) 0).
+Definition fbcbor_encode_uint32 (v s : Z) := zres (enc_uint32 (Z.to_N v) (Z.to_N s) 0).
+Definition fbcbor_encode_uint64 (v s : Z) := zres (enc_uint64 (Z.to_N v) (Z.to_N s) 0).
+Definition fbcbor_encode_uint (v s : Z) := zres (enc_uint (Z.to_N v) (Z.to_N s) 0).
+Definition fbcbor_encode_negint8 (v s : Z) := zres (enc_uint8 (Z.to_N v) (Z.to_N s) 32).
+Definition fbcbor_encode_negint16 (v s : Z) := zres (enc_uint16 (Z.to_N v) (Z.to_N s) 32).
+Definition fbcbor_encode_negint32 (v s : Z) := zres (enc_uint32 (Z.to_N v) (Z.to_N s) 32).
+Definition fbcbor_encode_negint64 (v s : Z) := zres (enc_uint64 (Z.to_N v) (Z.to_N s) 32).
+Definition fbcbor_encode_negint (v s : Z) := zres (enc_uint (Z.to_N v) (Z.to_N s) 32).
+Definition fbcbor_encode_bytestring_start (v s : Z) := zres (enc_uint (Z.to_N v) (Z.to_N s) 64).
+Definition fbcbor_encode_string_start (v s : Z) := zres (enc_uint (Z.to_N v) (Z.to_N s) 96).
+Definition fbcbor_encode_array_start (v s : Z) := zres (enc_uint (Z.to_N v) (Z.to_N s) 128).
+Definition fbcbor_encode_map_start (v s : Z) := zres (enc_uint (Z.to_N v) (Z.to_N s) 160).
+Definition fbcbor_encode_tag (v s : Z) := zres (enc_uint (Z.to_N v) (Z.to_N s) 192).
+Definition fbcbor_encode_ctrl (v s : Z) := zres (enc_uint8 (Z.to_N v) (Z.to_N s) 224).
+Definition fbcbor_encode_bool (v s : Z) := zres (if (Z.to_N v =? 0)%N then enc_byte 0xF4 (Z.to_N s) else enc_byte 0xF5 (Z.to_N s)).
+Definition fbcbor_encode_indef_bytestring_start (s : Z) := zres (enc_byte 95 (Z.to_N s)).
+Definition fbcbor_encode_indef_string_start (s : Z) := zres (enc_byte 127 (Z.to_N s)).
+Definition fbcbor_encode_indef_array_start (s : Z) := zres (enc_byte 159 (Z.to_N s)).
+Definition fbcbor_encode_indef_map_start (s : Z) := zres (enc_byte 191 (Z.to_N s)).
+Definition fbcbor_encode_null (s : Z) := zres (enc_byte 246 (Z.to_N s)).
+Definition fbcbor_encode_undef (s : Z) := zres (enc_byte 247 (Z.to_N s)).
+Definition fbcbor_encode_break (s : Z) := zres (enc_byte 255 (Z.to_N s)).
